@@ -44,6 +44,7 @@ type batch struct {
 var plans = map[string][]batch{
 	"C03": {{Driver: "C03", Build: "plain", Quick: 6000, Thor: 240000}},
 	"C06": {{Driver: "C06", Build: "plain", Quick: 12000, Thor: 500000}},
+	"C13": {{Driver: "C13", Build: "plain", Quick: 8000, Thor: 400000}, {Driver: "C13", Build: "race", Quick: 1600, Thor: 60000}},
 	"C14": {{Driver: "C14", Build: "plain", Quick: 6000, Thor: 240000}},
 	"C19": {{Driver: "C19", Build: "plain", Quick: 8000, Thor: 400000}},
 }
@@ -260,7 +261,7 @@ func runSimrun(bin string, args []string, b batch, outFile string, w int, timeou
 	cmd.Env = append(os.Environ(), "GOMAXPROCS=2")
 	cmd.Env = append(cmd.Env, b.Env...)
 	if b.Build == "race" {
-		cmd.Env = append(cmd.Env, fmt.Sprintf("GORACE=halt_on_error=0 log_path=%s", filepath.Join(scratch, fmt.Sprintf("race-%s-%d-%d", b.Driver, w, time.Now().UnixNano()))))
+		cmd.Env = append(cmd.Env, fmt.Sprintf("GORACE=halt_on_error=0 exitcode=0 log_path=%s", filepath.Join(scratch, fmt.Sprintf("race-%s-%d-%d", b.Driver, w, time.Now().UnixNano()))))
 	}
 	var stderr bytes.Buffer
 	cmd.Stderr = &stderr
@@ -292,6 +293,13 @@ func runSimrun(bin string, args []string, b batch, outFile string, w int, timeou
 	}
 	os.Remove(outFile)
 	return &wo, nil
+}
+
+func head(s string, n int) string {
+	if len(s) > n {
+		return s[:n] + "…"
+	}
+	return s
 }
 
 func tail(s string, n int) string {
@@ -489,7 +497,7 @@ func replayOnce(bin, path, build string, env map[string]string, verbose bool) (i
 		cmd.Env = append(cmd.Env, k+"="+v)
 	}
 	if build == "race" {
-		cmd.Env = append(cmd.Env, fmt.Sprintf("GORACE=halt_on_error=0 log_path=%s", filepath.Join(scratch, fmt.Sprintf("race-replay-%d", time.Now().UnixNano()))))
+		cmd.Env = append(cmd.Env, fmt.Sprintf("GORACE=halt_on_error=0 exitcode=0 log_path=%s", filepath.Join(scratch, fmt.Sprintf("race-replay-%d", time.Now().UnixNano()))))
 	}
 	var out bytes.Buffer
 	cmd.Stdout = &out
@@ -698,7 +706,7 @@ func doCheck(prop, tier string, seed uint64, bs []batch, scale float64) int {
 		}
 		lines = append(lines, fmt.Sprintf("VIOLATION property=%s replay=%s", prop, path))
 		lines = append(lines, fmt.Sprintf("  oracle=%s site=%q occurrences=%d first_run=%d%s", f.Oracle, f.Site, len(fs), f.Index, note))
-		lines = append(lines, "  "+strings.ReplaceAll(tail(f.Detail, 700), "\n", "\n  "))
+		lines = append(lines, "  "+strings.ReplaceAll(head(f.Detail, 900), "\n", "\n  "))
 	}
 
 	wall := time.Since(t0).Seconds()
